@@ -1,14 +1,32 @@
-"""All translated (T-tied) model files: name -> (translate function, output path)."""
+"""All translated (T-tied) model files: name -> (translate function, output path).
+Used by setup.sh (so that a clean build has every Gen/*.v) and available to checks."""
 from __future__ import annotations
+
+import importlib
 
 from . import core
 
+# generated file -> translator module (each has translate(repo: str) -> str and raises when it must refuse)
+TRANSLATORS = {
+    "Gen/Quant.v": "translator.t_quant",
+    "Gen/Pred.v": "translator.t_pred",
+    "Gen/JsonResolve.v": "translator.t_json",
+    "Gen/FieldKind.v": "translator.t_fieldkind",
+    "Gen/ParseField.v": "translator.t_parsefield",
+    "Gen/Registry.v": "translator.t_registry",
+    "Gen/Match.v": "translator.t_match",
+    "Gen/SymbolicDecisions.v": "translator.t_symbolic",
+}
+
 
 def targets():
-    from translator import t_quant
-    out = {
-        "Gen/Quant.v": (lambda: t_quant.translate(str(core.REPO)), core.COQ / "Gen" / "Quant.v"),
-    }
+    out = {}
+    for name, modname in TRANSLATORS.items():
+        try:
+            mod = importlib.import_module(modname)
+        except ImportError:
+            continue
+        out[name] = ((lambda m=mod: m.translate(str(core.REPO))), core.COQ / name)
     return out
 
 
